@@ -7,7 +7,7 @@ from props.common import set_knob, gen_strategy, quiet_logging, Violations
 from worlds.full import FullWorld, ReqObs
 
 ID = 'C43'
-TIERS = {'quick': {'runs': 3000, 'budget_s': 55, 'wall_cap': 120, 'block': 50},
+TIERS = {'quick': {'runs': 9000, 'budget_s': 55, 'wall_cap': 120, 'block': 50},
          'thorough': {'runs': 300000, 'budget_s': 840, 'wall_cap': 120, 'block': 50}}
 SHRINK_LISTS = ['ddls']
 COVERAGE_RULE = ('one run = real Cluster/ControlConnection over 2-4 fake nodes (one possibly in a remote dc ignored by the '
